@@ -151,11 +151,19 @@ func harnessDir() string {
 	return "/verif/harness"
 }
 
-func goEnv() []string {
+// GoEnv is the environment of every go build the harness starts. The build cache is private to the run
+// (VERIF_GOCACHE, set by the driver to a directory inside the run's work directory, removed with it): thousands of
+// generated packages per run would otherwise pile up in the shared cache, which Go trims only after days.
+func GoEnv() []string {
 	env := os.Environ()
 	env = append(env, "GOFLAGS=-mod=mod", "GOPROXY=off", "GOSUMDB=off", "GOTOOLCHAIN=local")
+	if gc := os.Getenv("VERIF_GOCACHE"); gc != "" {
+		env = append(env, "GOCACHE="+gc)
+	}
 	return env
 }
+
+func goEnv() []string { return GoEnv() }
 
 // Build generates every plan, compiles the generated files alone (the C12
 // oracle), then adds registries and links the worker.
